@@ -1230,7 +1230,15 @@ class Fetcher:
                     continue
                 res_or_error = self._records[tp]
                 if type(res_or_error) is FetchResult:
-                    records = res_or_error.getall(max_records)
+                    try:
+                        records = res_or_error.getall(max_records)
+                    except Exception:
+                        if drained:
+                            # We already got some messages from another
+                            # partition - return them. The failed batch will
+                            # be processed (and the error raised) again
+                            return drained
+                        raise
                     if not res_or_error.has_more():
                         # We processed all messages - request new ones
                         del self._records[tp]
